@@ -87,8 +87,7 @@ Proof.
     split; [discriminate|]. intros _. split; [reflexivity|left; reflexivity].
 Qed.
 
-Lemma install_spec : forall t it f t' ok,
-  store_ok (tstore t) -> install H t it f = (t', ok) ->
+Definition step_spec (t : tstate) (it : item) (t' : tstate) (ok : bool) : Prop :=
   store_ok (tstore t') /\ mono t t'
   /\ (ok = true ->
         (exists c, f_lookup (ipath it) (troot t') = Some c /\ H c = idigest it)
@@ -96,28 +95,63 @@ Lemma install_spec : forall t it f t' ok,
         /\ tmissing t' = tmissing t /\ tproblems t' = tproblems t)
   /\ (ok = false ->
         troot t' = troot t /\ (tmissing t' = true \/ In (ipath it) (tproblems t'))).
+
+Lemma step_spec_problem : forall t it, store_ok (tstore t) ->
+  step_spec t it (problem t (ipath it)) false.
 Proof.
-  intros t it f t' ok OK. unfold install.
-  assert (PB : forall t' ok, (problem t (ipath it), false) = (t', ok) ->
-    store_ok (tstore t') /\ mono t t'
-    /\ (ok = true ->
-          (exists c, f_lookup (ipath it) (troot t') = Some c /\ H c = idigest it)
-          /\ (forall q, q <> ipath it -> f_lookup q (troot t') = f_lookup q (troot t))
-          /\ tmissing t' = tmissing t /\ tproblems t' = tproblems t)
-    /\ (ok = false ->
-          troot t' = troot t /\ (tmissing t' = true \/ In (ipath it) (tproblems t')))).
-  { intros t0 ok0 X; inversion X; subst. split; [exact OK|]. split; [apply mono_problem|].
-    split; [discriminate|]. intros _. split; [reflexivity|right; left; reflexivity]. }
-  destruct f; try (apply PB);
-    (destruct (iold it) as [d0|]; destruct (f_lookup (ipath it) (troot t)) as [c0|] eqn:L;
-     try (apply PB); try (apply move_into_place_spec; exact OK);
-     destruct (negb (String.eqb (H c0) d0)) eqn:E; try (apply PB);
-     destruct (String.eqb d0 (idigest it)) eqn:E2; try (apply move_into_place_spec; exact OK);
-     intros X; inversion X; subst;
-     (split; [exact OK|]; split; [apply mono_refl|]; split; [intros _|discriminate];
-      split; [exists c0; split; [exact L|];
-              apply negb_false_iff in E; apply seqb_eq in E; apply seqb_eq in E2; congruence|];
-      split; [auto|auto])).
+  intros t it OK. split; [exact OK|]. split; [apply mono_problem|]. split; [discriminate|].
+  intros _. split; [reflexivity|right; left; reflexivity].
+Qed.
+
+Lemma step_spec_missing : forall t it, store_ok (tstore t) ->
+  step_spec t it {| troot := troot t; tstore := tstore t; tmissing := true;
+                    tproblems := ipath it :: tproblems t |} false.
+Proof.
+  intros t it OK. split; [exact OK|]. split; [split; [auto|cbn; apply incl_tl, incl_refl]|].
+  split; [discriminate|]. intros _. split; [reflexivity|left; reflexivity].
+Qed.
+
+Lemma install_spec : forall t it f t' ok,
+  store_ok (tstore t) -> install H t it f = (t', ok) -> step_spec t it t' ok.
+Proof.
+  intros t it f t' ok OK E.
+  assert (MV : forall f0, move_into_place t it f0 = (t', ok) -> step_spec t it t' ok)
+    by (intros f0 X; eapply move_into_place_spec; eauto).
+  unfold install in E.
+  assert (BODY :
+    match iold it with
+    | Some d0 =>
+        match f_lookup (ipath it) (troot t) with
+        | Some c0 =>
+            if negb (String.eqb (H c0) d0) then (problem t (ipath it), false)
+            else if String.eqb d0 (idigest it) then (t, true) else move_into_place t it f
+        | None => (problem t (ipath it), false)
+        end
+    | None =>
+        match f_lookup (ipath it) (troot t) with
+        | Some _ =>
+            match provide (tstore t) (ipath it) (idigest it) with
+            | Some _ => (problem t (ipath it), false)
+            | None => ({| troot := troot t; tstore := tstore t; tmissing := true;
+                          tproblems := ipath it :: tproblems t |}, false)
+            end
+        | None => move_into_place t it f
+        end
+    end = (t', ok) -> step_spec t it t' ok).
+  { destruct (iold it) as [d0|]; destruct (f_lookup (ipath it) (troot t)) as [c0|] eqn:L.
+    - destruct (negb (String.eqb (H c0) d0)) eqn:E1.
+      + intros X; inversion X; subst. apply step_spec_problem; exact OK.
+      + destruct (String.eqb d0 (idigest it)) eqn:E2; [|apply MV].
+        intros X; inversion X; subst. split; [exact OK|]. split; [apply mono_refl|].
+        split; [intros _|discriminate].
+        split; [exists c0; split; [exact L|]|auto].
+        apply negb_false_iff in E1. apply seqb_eq in E1. apply seqb_eq in E2. congruence.
+    - intros X; inversion X; subst. apply step_spec_problem; exact OK.
+    - destruct (provide (tstore t) (ipath it) (idigest it)); intros X; inversion X; subst;
+        [apply step_spec_problem|apply step_spec_missing]; exact OK.
+    - apply MV. }
+  destruct f; try (apply BODY; exact E).
+  inversion E; subst. apply step_spec_problem; exact OK.
 Qed.
 
 Lemma transition_length : forall plan t fs t' oks,
@@ -336,3 +370,25 @@ Proof.
 Qed.
 
 End C10.
+
+(* ---------- a concrete session (identity as hash function) ---------- *)
+
+Definition Hid (b : bytes) : digest := b.
+Definition op_data (d : bytes) : transmission := TOp {| odata := d; ostart := 0; ocount := 0 |}.
+Definition x_empty (root : files) : session := {| sroot := root; sstore := []; srecv := None |}.
+
+(* "n" is received intact and installed; "m" arrives corrupt, so nothing is
+   provided for its planned digest: reported missing, root untouched at "m";
+   "k" is a copy of "a" taken from the root and installed *)
+Lemma example_session :
+  snd (srun Hid 1000 (x_empty [("a", "old")])
+        [SStage [("n", "new"); ("m", "more"); ("k", "old")] [None; None; Some "a"] [empty_sig; empty_sig];
+         SRecv (op_data "ne") true; SRecv (op_data "w") true; SRecv TDone true;
+         SRecv (op_data "moXe") true; SRecv TDone true; SFinal;
+         STransition [{| ipath := "n"; idigest := "new"; iold := None |};
+                      {| ipath := "m"; idigest := "more"; iold := None |};
+                      {| ipath := "k"; idigest := "old"; iold := None |}] []])
+  = [XStage (Some ["n"; "m"]); XRecv RvOk; XRecv RvOk; XRecv RvOk; XRecv RvOk; XRecv RvOk;
+     XFinal true; XTransition [true; false; true] true ["m"]].
+Proof. vm_compute. reflexivity. Qed.
+
